@@ -401,6 +401,8 @@ pub enum Op {
     Alive(usize),
     WAlive(usize),
     EJoin,
+    /// `(&entities).par_join()` collected and sorted by index (same model op as `ejoin`)
+    EJoinPar,
     Reg(usize, u8),
     CreateW { atomic: bool, dropped: bool, comps: Vec<(usize, i64)> },
     Get(usize, usize),
@@ -422,6 +424,9 @@ pub enum Op {
     LazyInsAll(usize, Vec<(usize, i64)>),
     LazyRem(usize, usize),
     LazyCreate(Vec<(usize, i64)>),
+    /// `lazy_create_nobuild …`: the same lazily built entity, but the builder is dropped without `build()` after its entity
+    /// has been read from the public field: every `with` has queued its insertion already — same model op as `lazy_create`
+    LazyCreateNoBuild(Vec<(usize, i64)>),
     LazyExec(Vec<Op>),
     /// `shared`: mutable restricted join through `.join()` (items are `PairedStorageWriteShared`: get / get_mut only)
     /// instead of `.lend_join()` (`PairedStorageWriteExclusive`); printed as mode `x`.
@@ -440,6 +445,11 @@ pub enum Op {
     /// removal (model op `rem`); the component has been moved out, so the second one must not produce it again (the
     /// crate panics: "Tried to access same index twice"). Result `<first> / <second>`, second = `panic` | `none` | `some v`.
     LendDrain2(usize, usize),
+    /// `lentry2 k @h v`: `st.entries().lend_join()`, then `get(e, &entities)` twice for the same entity: the first entry
+    /// gets `or_insert(v)` (model op `entry_or k @h v 0`), the second look-up must show the component as occupied with the
+    /// value it has now — a mutation made through an item of a lending join is visible to a later look-up of the same join.
+    /// Result `<first> / <second>`: first = `vac` | `occ <old>` | `err` (dead handle), second = `occ <v>` | `vac` | `none`.
+    LendEntry2(usize, usize, i64),
     /// Queues a lazy action that panics (outside the model; always followed by the case's final `maintain`, whose unwind the
     /// harness catches). What happens in this world afterwards is not specified — the point is that OTHER worlds of the
     /// process must behave as if it had not happened (C20).
@@ -487,6 +497,7 @@ pub fn show_op(op: &Op) -> String {
         Op::Alive(h) => write!(s, "alive @{}", h).unwrap(),
         Op::WAlive(h) => write!(s, "walive @{}", h).unwrap(),
         Op::EJoin => s.push_str("ejoin"),
+        Op::EJoinPar => s.push_str("pejoin"),
         Op::Reg(k, p) => write!(s, "reg {} {}", k, p).unwrap(),
         Op::CreateW { atomic, dropped, comps } => {
             write!(s, "createw {}{}", if *atomic { "atomic" } else { "now" }, if *dropped { "_dropped" } else { "" }).unwrap();
@@ -516,6 +527,7 @@ pub fn show_op(op: &Op) -> String {
         }
         Op::LazyRem(k, h) => write!(s, "lazy_rem {} @{}", k, h).unwrap(),
         Op::LazyCreate(comps) => { s.push_str("lazy_create"); show_comps(&mut s, comps); }
+        Op::LazyCreateNoBuild(comps) => { s.push_str("lazy_create_nobuild"); show_comps(&mut s, comps); }
         Op::LazyExec(script) => {
             s.push_str("lazy_exec [");
             for (i, o) in script.iter().enumerate() {
@@ -542,6 +554,7 @@ pub fn show_op(op: &Op) -> String {
         Op::Generic(inner) => { s.push('g'); s.push_str(&show_op(inner)); }
         Op::Lend(inner) => { s.push('l'); s.push_str(&show_op(inner)); }
         Op::LendDrain2(k, h) => write!(s, "ldrain2 {} @{}", k, h).unwrap(),
+        Op::LendEntry2(k, h, v) => write!(s, "lentry2 {} @{} {}", k, h, v).unwrap(),
         Op::EntryFar(k, v) => write!(s, "entry_far {} {}", k, v).unwrap(),
         Op::LazyPanic => s.push_str("lazy_panic"),
         Op::LazyProbe => s.push_str("lazy_probe"),
@@ -582,6 +595,7 @@ pub fn parse_ops(ts: &[&str]) -> Option<Op> {
         ["alive", h] => Op::Alive(slot(h)?),
         ["walive", h] => Op::WAlive(slot(h)?),
         ["ejoin"] => Op::EJoin,
+        ["pejoin"] => Op::EJoinPar,
         ["reg", k, p] => Op::Reg(k.parse().ok()?, p.parse().ok()?),
         ["createw", mode, cs @ ..] => {
             let (atomic, dropped) = match *mode {
@@ -610,6 +624,7 @@ pub fn parse_ops(ts: &[&str]) -> Option<Op> {
         ["lazy_ins_all", k, items @ ..] => Op::LazyInsAll(k.parse().ok()?, items.iter().map(|t| { let (h, v) = t.split_once(':')?; Some((slot(h)?, v.parse().ok()?)) }).collect::<Option<_>>()?),
         ["lazy_rem", k, h] => Op::LazyRem(k.parse().ok()?, slot(h)?),
         ["lazy_create", cs @ ..] => Op::LazyCreate(comps(cs)?),
+        ["lazy_create_nobuild", cs @ ..] => Op::LazyCreateNoBuild(comps(cs)?),
         ["lazy_exec", "[", inner @ .., "]"] => {
             // split on ';' at bracket depth 0
             let mut script = Vec::new();
@@ -657,6 +672,7 @@ pub fn parse_ops(ts: &[&str]) -> Option<Op> {
             Op::Lend(Box::new(parse_ops(&v)?))
         }
         ["ldrain2", k, h] => Op::LendDrain2(k.parse().ok()?, slot(h)?),
+        ["lentry2", k, h, v] => Op::LendEntry2(k.parse().ok()?, slot(h)?, v.parse().ok()?),
         ["entry_far", k, v] => Op::EntryFar(k.parse().ok()?, v.parse().ok()?),
         ["lazy_panic"] => Op::LazyPanic,
         ["lazy_probe"] => Op::LazyProbe,
@@ -802,6 +818,18 @@ fn exec_inner(world: &mut World, ctx: &Shared, op: &Op) -> String {
             let ents = world.entities();
             let mut s = String::from("es");
             for e in (&*ents).join() { write!(s, " {}", show_entity(e)).unwrap(); }
+            s
+        }
+        // the parallel join over the entities, sorted by index: the same set (same model op as `ejoin`)
+        Op::EJoinPar => {
+            let ents = world.entities();
+            #[cfg(not(feature = "np"))]
+            let mut v: Vec<Entity> = { use specs::rayon::iter::ParallelIterator as _; (&*ents).par_join().collect() };
+            #[cfg(feature = "np")]
+            let mut v: Vec<Entity> = (&*ents).join().collect();
+            v.sort_by_key(|e| e.id());
+            let mut s = String::from("es");
+            for e in v { write!(s, " {}", show_entity(e)).unwrap(); }
             s
         }
         Op::Reg(k, path) => {
@@ -977,13 +1005,13 @@ fn exec_inner(world: &mut World, ctx: &Shared, op: &Op) -> String {
             with_kind!(*k, T => world.read_resource::<LazyUpdate>().remove::<T>(e));
             let mut c = ctx.lock().unwrap(); c.next_tag += 1; format!("q {}", c.next_tag - 1)
         }
-        Op::LazyCreate(comps) => {
+        Op::LazyCreate(comps) | Op::LazyCreateNoBuild(comps) => {
             for (k, _) in comps { if !is_reg(ctx, *k) { return "nostore".into(); } }
             let e = {
                 let ents = world.entities();
                 let lazy = world.read_resource::<LazyUpdate>();
                 let b = build_with(lazy.create_entity(&ents), comps);
-                b.build()
+                if let Op::LazyCreateNoBuild(_) = op { let e = b.entity; drop(b); e } else { b.build() }
             };
             let mut c = ctx.lock().unwrap();
             c.next_tag += comps.len() as u64;
@@ -1163,6 +1191,30 @@ fn exec_inner(world: &mut World, ctx: &Shared, op: &Op) -> String {
                 format!("{} / {}", first, second)
             })
         }
+        Op::LendEntry2(k, h, v) => {
+            if !is_reg(ctx, *k) { return "nostore".into(); }
+            let e = match resolve(ctx, *h) { Some(e) => e, None => return "skip".into() };
+            with_kind!(*k, T => {
+                let mut st = world.write_storage::<T>();
+                let ents = world.entities();
+                let old = st.get(e).map(|c| c.val());
+                let mut it = st.entries().lend_join();
+                let first = match it.get(e, &ents) {
+                    None => "err".to_string(),
+                    Some(entry) => {
+                        let occ = matches!(entry, StorageEntry::Occupied(_));
+                        let _ = entry.or_insert(T::new(*v));
+                        if occ { format!("occ {}", old.unwrap_or(-999)) } else { "vac".into() }
+                    }
+                };
+                let second = match it.get(e, &ents) {
+                    None => "none".to_string(),
+                    Some(StorageEntry::Occupied(o)) => format!("occ {}", o.get().val()),
+                    Some(StorageEntry::Vacant(_)) => "vac".to_string(),
+                };
+                format!("{} / {}", first, second)
+            })
+        }
         Op::LazyFlag => {
             FLAGS_Q.with(|c| c.set(c.get() + 1));
             world.read_resource::<LazyUpdate>().exec(|_| FLAGS_RAN.with(|c| c.set(c.get() + 1)));
@@ -1251,7 +1303,7 @@ impl Exec {
 }
 
 pub fn is_mutating(op: &Op) -> bool {
-    !matches!(op, Op::Alive(_) | Op::WAlive(_) | Op::EJoin | Op::Get(..) | Op::Has(..) | Op::Count(_) | Op::Empty(_) | Op::Mask(_) | Op::Slice(_) | Op::Events(_) | Op::Fault(_) | Op::Dump | Op::LazyFlag | Op::LazyFlagCheck)
+    !matches!(op, Op::Alive(_) | Op::WAlive(_) | Op::EJoin | Op::EJoinPar | Op::Get(..) | Op::Has(..) | Op::Count(_) | Op::Empty(_) | Op::Mask(_) | Op::Slice(_) | Op::Events(_) | Op::Fault(_) | Op::Dump | Op::LazyFlag | Op::LazyFlagCheck)
 }
 
 #[derive(Clone, Copy)]
@@ -1302,6 +1354,7 @@ pub fn run_script(ops: &[Op], cfg: RunCfg, rng: &mut Rng, out: &mut String) {
                 };
                 for k in ks { let q = Op::Alive(k); let r = ex.exec(&q); emit_line(out, &q, &r, false); }
                 let q = Op::EJoin; let r = ex.exec(&q); emit_line(out, &q, &r, false);
+                if n % 3 == 0 { let q = Op::EJoinPar; let r = ex.exec(&q); emit_line(out, &q, &r, false); }
             }
             if cfg.probe_stores {
                 let regs: Vec<usize> = { let c = ex.ctx.lock().unwrap(); (0..NUM_KINDS).filter(|k| c.registered[*k]).collect() };
@@ -1408,6 +1461,8 @@ fn gen_simple_store_op(rng: &mut Rng, p: &StoreProfile, nlog: &mut usize, val: &
     if matches!(op, Op::Get(..) | Op::GetMut { .. } | Op::Ins(..) | Op::Rem(..)) && rng.chance(1, 5) {
         return Op::Generic(Box::new(op));
     }
+    // ... a fifth of the `or_insert` entries as the first of two look-ups through `entries().lend_join()`
+    if let Op::Entry(k, h, EntryOp::OrInsert { v, .. }) = op { if rng.chance(1, 5) { return Op::LendEntry2(k, h, v); } }
     // ... a quarter of the remaining removals as the first of two look-ups of a draining lending join
     if let Op::Rem(k, h) = op { if rng.chance(1, 4) { return Op::LendDrain2(k, h); } }
     // ... and a sixth of the remaining look-ups through a lending join of the storage (`JoinLendIter::get`)
@@ -1447,7 +1502,7 @@ fn gen_store_op_inner(rng: &mut Rng, ws: &[u32; 31], p: &StoreProfile, k: usize,
         23 => Op::LazyIns(k, h, nv(val)),
         24 => { let n = rng.range(1, 3) as usize; Op::LazyInsAll(k, (0..n).map(|_| { *val += 1; (pick_slot(rng, *nlog), if null { 0 } else { *val }) }).collect()) }
         25 => Op::LazyRem(k, h),
-        26 => { *nlog += 1; Op::LazyCreate(gen_comps(rng, &p.kinds, val)) }
+        26 => { *nlog += 1; let cs = gen_comps(rng, &p.kinds, val); if rng.chance(1, 4) { Op::LazyCreateNoBuild(cs) } else { Op::LazyCreate(cs) } }
         27 => {
             let n = rng.range(1, 4) as usize;
             let mut script = Vec::new();
